@@ -1881,6 +1881,8 @@ class AstEval:
     async def ast_call(self, arg):
         """Evaluate function call."""
         func = await self.aeval(arg.func)
+        # positional arguments are evaluated before keyword arguments
+        args = await self.eval_elt_list(arg.args)
         kwargs = {}
         for kw_arg in arg.keywords:
             if kw_arg.arg is None:
@@ -1892,7 +1894,6 @@ class AstEval:
                 if kw_arg.arg in kwargs:
                     raise TypeError(f"got multiple values for keyword argument '{kw_arg.arg}'")
                 kwargs[kw_arg.arg] = await self.aeval(kw_arg.value)
-        args = await self.eval_elt_list(arg.args)
         #
         # try to deduce function name, although this only works in simple cases
         #
